@@ -99,12 +99,22 @@ def g_bin(rng, long_ok=False):
     return out
 
 
-TEXT_STEMS = ["p:caf\u00e9|", "p:\u00fcber|", "p:na\u00efve|", "p:x|", "q:\u00e9=\u00e8|"]
+TEXT_STEMS = ["p:caf\u00e9|", "p:\u00fcber|", "p:na\u00efve|", "p:x|", "q:\u00e9=\u00e8|",
+              # decomposed (e + combining acute), a compatibility ligature, a percent escape, upper case, a non-BMP character:
+              # text must reach the index encoded as it is, never normalised
+              "p:cafe\u0301|", "p:\ufb01n|", "p:caf%C3%A9|", "p:CAF\u00c9|", "p:\U0001f600|", "p:\u212b|"]
 
 
 def g_text(rng, encoding):
     head = rng.choice(["s:http|", "s:https|"]) + rng.choice(["h:com|", "h:fr|"]) + rng.choice(["h:a|", "h:b|"])
-    t = head + "".join(rng.choice(TEXT_STEMS) for _ in range(rng.randint(1, 2)))
+    stems_ok = []
+    for x in TEXT_STEMS:
+        try:
+            x.encode(encoding)
+            stems_ok.append(x)
+        except UnicodeEncodeError:
+            pass
+    t = head + "".join(rng.choice(stems_ok) for _ in range(rng.randint(1, 2)))
     return t.encode(encoding)
 
 
@@ -335,13 +345,13 @@ def gen_history(rng, cfg, pool, text, nops, weights=None, allow_uncrawled_pages=
                 data.append([s, ts])
             as_text = astr([x for s_, ts in data for x in [s_] + ts])
             if not as_text and data and rng.random() < 0.25:
-                # the same page named twice in one batch: once as bytes, once as text (two different keys)
-                s_, ts = rng.choice(data)
+                # one source of the batch given as text, the others as bytes (never the same page under two keys:
+                # what a batch naming one source twice means is not specified)
+                e_ = rng.choice(data)
                 try:
                     enc = cfg.get("encoding", "utf-8")
-                    if s_.decode(enc).encode(enc) == s_:
-                        more = [pick() for _ in range(rng.randint(1, 3))]
-                        data.append([s_, more, True])
+                    if e_[0].decode(enc).encode(enc) == e_[0] and len(e_) == 2:
+                        e_.append(True)
                 except Exception:
                     pass
             ops.append({"op": "batch", "data": data, "yf": rng.choice([1, 2, 50]), "as_str": as_text})
@@ -442,7 +452,7 @@ def gen_history(rng, cfg, pool, text, nops, weights=None, allow_uncrawled_pages=
             p = some_prefix(rng, pick(), 1, 5)
             if p in m.we:
                 continue
-            fid = 5000 + rng.randrange(50)
+            fid = 100000 + rng.randrange(50)  # caller-chosen ids, beyond two bytes
             ops.append({"op": "addp_foreign", "prefix": p, "id": fid})
             m.ins(p)
             m.we[p] = -fid  # model id of a caller-chosen webentity id
